@@ -265,7 +265,7 @@ fn model_phase(args: &Args) -> Report {
     }
     let n_cases = items.len();
     let mut r = run_isolated(items, &args.out, "C16");
-    r.traces_validated += conf.traces_validated;
+    r.bound("answer_kinds_witnessed_on_real_kernel_before_the_run", conf.traces_validated);
     for k in off {
         r.note(format!("answer kind '{k}' was not reproduced on the real kernel in this run: removed from the model's menu"));
     }
@@ -314,9 +314,22 @@ fn replay(v: &Value, r: &mut Report) {
             }
         }
         "cmsg" => cmsg::replay(v, r),
-        "conformance" | "bulk" => {
-            println!("phase {} has no per-case replay: re-run the phase", v["phase"]);
+        "real-connect-blocking" => {
+            println!("replaying on the REAL kernel: TcpStream::try_connect to a listener with a full accept queue, then connect_blocking()");
+            conform::real_connect_blocking(r);
+            for s in &r.samples {
+                println!("  observed: {s}");
+            }
         }
+        "bulk" => {
+            println!("re-running the sampled bulk transfer (both stream types)");
+            let rep = bulk::body();
+            for s in &rep.samples {
+                println!("  {s}");
+            }
+            r.merge(rep);
+        }
+        "conformance" => println!("the conformance witnesses have no per-case replay: re-run `--phase conformance`"),
         other => println!("unknown replay phase {other:?}"),
     }
 }
